@@ -487,7 +487,7 @@ def _body(ctx):
             continue
         v_ = _PVk(p_).env.get('self.key_list')
         nkl += 1
-        okl = okl and v_ is not None and (pseudo(v_) == kspec or (isinstance(v_, ast.Call) and u(v_.func) in ('re.findall', 'list')
+        okl = okl and v_ is not None and (pseudo(v_) == kspec or (isinstance(v_, ast.Call) and (u(v_.func) in ('re.findall', 'list') or (isinstance(v_.func, ast.Attribute) and v_.func.attr == 'findall'))
                                                                    and kspec in {n_.id for n_ in ast.walk(v_) if isinstance(n_, ast.Name)}
                                                                    and not any(isinstance(c_, ast.Call) and u(c_.func) in ('sorted', 'set', 'reversed', 'frozenset')
                                                                                for c_ in ast.walk(v_))))
